@@ -60,6 +60,9 @@ func (a *AspectEliminationHeuristic) MethodParameters() interface{} {
 func (a *AspectEliminationHeuristic) ParseParams(dm *model.DecisionMaker) interface{} {
 	var params AspectEliminationHeuristicParams
 	utils.DecodeToStruct(dm.MethodParameters, &params)
+	for _, c := range dm.Criteria {
+		params.Weights.Fetch(c.Id)
+	}
 	return params
 }
 
